@@ -167,6 +167,24 @@ def jacobi_by_factors(a, factors):
     return r
 
 
+def jacobi_iter(a, n):
+    """Jacobi symbol by the iterative binary algorithm (quadratic reciprocity); n odd >= 3.
+    Independent of any factorisation; self-tested against jacobi_by_factors."""
+    assert n >= 3 and n % 2 == 1
+    a %= n
+    t = 1
+    while a:
+        while a % 2 == 0:
+            a //= 2
+            if n % 8 in (3, 5):
+                t = -t
+        a, n = n, a
+        if a % 4 == 3 and n % 4 == 3:
+            t = -t
+        a %= n
+    return t if n == 1 else 0
+
+
 def sqrt_mod(a, p):
     """Tonelli-Shanks.  Returns one root in [0, p-1] or None."""
     a %= p
@@ -231,4 +249,8 @@ def selftest():
             if gcd(a, m) == 1:
                 assert a * inv(a, m) % m == 1 % m
     assert factor(2 ** 4 * 3 * 1231 ** 2) == [(2, 4), (3, 1), (1231, 2)]
+    for n in range(3, 400, 2):
+        f = factor(n)
+        for a in range(-n, 2 * n):
+            assert jacobi_iter(a, n) == jacobi_by_factors(a, f), (a, n)
     return True
